@@ -71,7 +71,7 @@ uint64_t __fpsym_bin(int opc,uint64_t sa,uint64_t sb,double a,double b,double r)
   // exact real-arithmetic simplifications with a concrete operand
   if(opc==3){ if((!sa && a==0.0)||(!sb && b==0.0)) return 0; if(!sa && a==1.0) return sb; if(!sb && b==1.0) return sa; }
   if(opc==1){ if(!sa && a==0.0) return sb; if(!sb && b==0.0) return sa; }
-  if(opc==2){ if(!sb && b==0.0) return sa; }
+  if(opc==2){ if(!sb && b==0.0) return sa; if(sa && sa==sb) return 0; }
   if(opc==4){ if(!sb && b==1.0) return sa; if(!sa && a==0.0) return 0; }
   Guard g; symops++; if(!sa) sa=K(a); if(!sb) sb=K(b);
   if((opc==1||opc==3) && sa>sb){ uint64_t t=sa; sa=sb; sb=t; }
